@@ -97,7 +97,10 @@ def handle_failure(run, mod, o, known):
         attempts.append(res)
         if res.get("confirmed"):
             run.violations.append({"obligation": o.name, "replay": path, "confirmed": True, "func": o.func,
-                                   "helper": bool(isinstance(o.tag, dict) and o.tag.get("helper"))})
+                                   "helper": bool(isinstance(o.tag, dict) and o.tag.get("helper")),
+                                   # the replay judged the run against the property's statement through a public entry point (not against
+                                   # the helper's own contract): it stands without the oracle even when the obligation sits on a helper
+                                   "statement_level": bool(res.get("statement_level"))})
             return
         blk = mod.block_model(o, m) if hasattr(mod, "block_model") else None
         if blk is None:
@@ -302,7 +305,7 @@ def main(argv=None):
             fn_last = (v.get("func") or (v["obligation"].split("/")[1] if v["obligation"].count("/") >= 2 else "")).split(".")[-1]
             # (helpers: a leading underscore, or the obligation's tag says {"helper": True} - C: a `static` function that is not the property's
             #  mechanism, marked by its contract, engine/cvc/contract.py Contract.helper)
-            if v["confirmed"] and not v.get("oracle") and (v.get("helper") or (fn_last.startswith("_") and not fn_last.startswith("__"))) and have_oracle(pid):
+            if v["confirmed"] and not v.get("oracle") and not v.get("statement_level") and (v.get("helper") or (fn_last.startswith("_") and not fn_last.startswith("__"))) and have_oracle(pid):
                 v["confirmed"], v["refuted"], v["helper_level"] = False, True, True
         unconfirmed = [v for v in run.violations if not v["confirmed"]]
         needed = bool(run.out_of_reach or run.undecided or (unconfirmed and not any(v["confirmed"] for v in run.violations)))
